@@ -27,7 +27,7 @@ PROP = {
                   "statement language read from the real parser's AST. Judge: non-deterministic path semantics "
                   "(events create/use/move/destroy/scopeEnd, Linear). Proved: soundness of the port w.r.t. the path "
                   "semantics for straight-line functions (sound_straightline_partial), the pointwise characterisation "
-                  "of Resources.MergeBranches (merge_pointwise), error accumulation, exactness of the judge's "not linear" verdict for all functions and unroll bounds (judge_paths_are_paths, judge_nonlinear_exact). The full-strength statements are "
+                  "of Resources.MergeBranches (merge_pointwise), error accumulation, exactness of the judge's not-linear verdict for all functions and unroll bounds (judge_paths_are_paths, judge_nonlinear_exact). The full-strength statements are "
                   "false of the code: one soundness counterexample (loop invalidation followed by a halt) and four "
                   "completeness counterexamples are proved about the port and replayed on the Go checker (known findings). "
                   "Tie: stream `lin` compares the multiset of error kinds of the real checker with the port on every "
